@@ -16,7 +16,7 @@ CVC5 = shutil.which("cvc5") or "/usr/bin/cvc5"
 Z3_OLD = "/usr/bin/z3" if os.path.exists("/usr/bin/z3") else None
 Z3_NEW = shutil.which("z3-new")
 
-BUDGET = {"quick": {"inproc_ms": 1500, "ext_s": 10, "retry_s": 40, "batch_s": 240, "check_s": 600},
+BUDGET = {"quick": {"inproc_ms": 1500, "ext_s": 10, "retry_s": 40, "batch_s": 240, "check_s": 300},
           "thorough": {"inproc_ms": 5000, "ext_s": 60, "retry_s": 240, "batch_s": 1500, "check_s": 6000}}
 
 _pool = ThreadPoolExecutor(max_workers=6)
@@ -549,11 +549,11 @@ def _check_many_whole(queries, tier="quick", want_model=True):
     left = []
     t_start = time.time()
     cap = b.get("batch_s", 300)
-    # wall clock for ALL solver batches of one check (like the exploration budget of the engine): once it is used up a batch gets 20 s;
+    # wall clock for ALL solver batches of one check (like the exploration budget of the engine): once it is used up a batch gets 5 s (10 s with the external retries);
     # on the unchanged tree the whole solving of the largest check stays under a minute
     total = b.get("check_s", 900)
     if _solver_wall[0] > total:
-        cap = min(cap, 20)
+        cap = min(cap, 5)
     try:
         return _check_many_capped(queries, tier, want_model, out, b, left, t_start, cap)
     finally:
@@ -574,6 +574,11 @@ def _check_many_capped(queries, tier, want_model, out, b, left, t_start, cap):
             left.append(i)
         else:
             out[i] = r
+    if left and cap <= 5:
+        # the check's solver budget is used up: no external portfolio (10 s + 40 s per query) any more
+        for i in left:
+            out[i] = Result("unknown", None, "portfolio", 0.0, "solver budget of the check exhausted")
+        left = []
     if left:
         futs = {}
         for i in left:
